@@ -1054,3 +1054,33 @@ func reachingStoreAddr(ld *ssa.UnOp, addr ssa.Value) ssa.Value {
 func constantInt(k int64) constant.Value { return constant.MakeInt64(k) }
 
 func constantInt64(cn *types.Const) (int64, bool) { return constant.Int64Val(cn.Val()) }
+
+// HoldsOnAllEdges: pred holds for the facts at b, or — when b is a join — for
+// the facts of every incoming edge (recursively, bounded).  This is how a
+// disjunctive guard (`if !(a && b) { ... }`, `if a || b`) is recognised: each
+// way of reaching the block must establish the condition by itself.
+func (fa *Facts) HoldsOnAllEdges(b *ssa.BasicBlock, pred func(factSet) bool) bool {
+	return fa.holdsRec(b, pred, 0, map[*ssa.BasicBlock]bool{})
+}
+
+func (fa *Facts) holdsRec(b *ssa.BasicBlock, pred func(factSet) bool, depth int, onPath map[*ssa.BasicBlock]bool) bool {
+	if pred(fa.At(b)) {
+		return true
+	}
+	if depth > 4 || len(b.Preds) == 0 || onPath[b] {
+		return false
+	}
+	onPath[b] = true
+	defer delete(onPath, b)
+	for _, p := range b.Preds {
+		if pred(factsOnEdge(fa, p, b)) {
+			continue
+		}
+		// a straight-line predecessor: look further up
+		if len(p.Succs) == 1 && fa.holdsRec(p, pred, depth+1, onPath) {
+			continue
+		}
+		return false
+	}
+	return true
+}
